@@ -77,3 +77,18 @@ reg(
     "guard recognition + interprocedural interval analysis over the call graph + E2 signature conformance",
     "DESIGN.md §2 C35",
 )
+
+reg(
+    "C06",
+    "Decides dimensional homogeneity in the time unit: a units-of-measure abstract interpretation (E3) of the three dating pipelines from the public wrappers down to the numba kernels and the output assembly shows that every dimension-constraining operation (add/sub, comparison, min/max, where, append, searchsorted, exp/lgamma/pmf/cdf arguments, typed stores) is consistent in T and that the outputs carry the declared time dimension; by the Buckingham argument such a program computes a function homogeneous of the declared degree, so a hard-coded absolute threshold, unscaled epsilon or regularisation constant is reported at the offending expression. Floating-point tolerance of the equivariance, iteration counts and the internals of scipy/tskit are not decided.",
+    "Trusted: dimension seeds of the public parameters and tskit attributes (sa/e3run.py), dimension signatures of numpy/scipy functions (sa/e3.py), the cache table columns being dimensionless; unknown values are TOP and never reported. One reviewed site is suppressed by name (BeliefPropagation.__init__ allclose on grids, error path only).",
+    "abstract interpretation over a units-of-measure lattice (flow- and context-sensitive, interprocedural), plus output-dimension oracle",
+    "DESIGN.md §1 E3, §2 C06",
+)
+reg(
+    "C07",
+    "Same abstract interpretation with the genome-length unit L: edge coordinates, site positions, spans and sequence length carry L, the mutation rate 1/(T L); decides that spans occur only multiplied by the rate or as ratios/weights, and that every fitted quantity and output has L-exponent 0. Numerical tolerance is not decided.",
+    "Trusted: as C06.",
+    "abstract interpretation over a units-of-measure lattice (second base unit), plus output-dimension oracle",
+    "DESIGN.md §2 C07",
+)
